@@ -570,6 +570,41 @@ func ruleHeapDirection(c *Ctx, r *R) {
 				}
 			}
 		})
+		if !cont {
+			// the walk written as tail recursion: h.percolateUp(parent(child)) on every path that does not stop at the root
+			instrs(up, func(_ *ssa.BasicBlock, _ int, in ssa.Instruction) {
+				call, ok := in.(*ssa.Call)
+				if !ok || len(call.Call.Args) != 2 || len(up.Params) != 2 {
+					return
+				}
+				if cal := staticCallee(&call.Call); cal == nil || origin(cal) != origin(up) {
+					return
+				}
+				pc, ok := resolveVal(call.Call.Args[1]).(*ssa.Call)
+				if !ok || staticCallee(&pc.Call) == nil || fname(staticCallee(&pc.Call)) != "parent" || len(pc.Call.Args) != 1 || pc.Call.Args[0] != ssa.Value(up.Params[1]) {
+					return
+				}
+				// reached on every path past the root test: the call's block post-dominates the swap (no return in between)
+				unconditional := true
+				for _, b := range up.Blocks {
+					if _, isRet := b.Instrs[len(b.Instrs)-1].(*ssa.Return); isRet && b != call.Block() {
+						// a return that does not follow the recursive call: only the root test may lead there
+						rootOnly := false
+						for _, g := range guardsOf(b) {
+							if cf, ok := g.asCmp(); ok && cf.x == ssa.Value(up.Params[1]) && isConstInt(cf.y, 0) && (cf.op == token.LEQ || cf.op == token.EQL || cf.op == token.LSS) {
+								rootOnly = true
+							}
+						}
+						if !rootOnly {
+							unconditional = false
+						}
+					}
+				}
+				if unconditional {
+					cont = true
+				}
+			})
+		}
 		r.ok(cont && n >= 1, "heap.Heap.percolateUp|climbs-to-root", up.Pos(), "percolateUp must continue from the parent until the root")
 	} else {
 		r.undecided("heap.Heap.percolateUp|missing", token.NoPos, "anchor not found")
@@ -738,7 +773,7 @@ func ruleHeapDirection(c *Ctx, r *R) {
 	if l := heapFn(c, "less"); l != nil {
 		ok := false
 		instrs(l, func(b *ssa.BasicBlock, i int, in ssa.Instruction) {
-			if call, isC := in.(*ssa.Call); isC && strings.HasSuffix(path(call.Call.Value), ".lessFn") && len(call.Call.Args) == 2 {
+			if call, isC := in.(*ssa.Call); isC && len(call.Call.Args) == 2 && (strings.HasSuffix(path(call.Call.Value), ".lessFn") || isReceiverFuncField(l, call.Call.Value)) {
 				if path(call.Call.Args[0]) == "h.a[i]" && path(call.Call.Args[1]) == "h.a[j]" {
 					ok = true
 				}
@@ -1545,4 +1580,28 @@ func recordsSeen(fn *ssa.Function, g guard, tv ssa.Value) bool {
 	})
 	_ = g
 	return found
+}
+
+// isReceiverFuncField: v is a load of a func-typed field reached from fn's receiver through fields held by value
+// (h.lessFn, h.fns.less).
+func isReceiverFuncField(fn *ssa.Function, v ssa.Value) bool {
+	ld, ok := v.(*ssa.UnOp)
+	if !ok || ld.Op != token.MUL || len(fn.Params) == 0 {
+		return false
+	}
+	if _, isSig := ld.Type().Underlying().(*types.Signature); !isSig {
+		return false
+	}
+	a := ld.X
+	for d := 0; d < 3; d++ {
+		fa, ok := a.(*ssa.FieldAddr)
+		if !ok {
+			return false
+		}
+		if fa.X == ssa.Value(fn.Params[0]) {
+			return true
+		}
+		a = fa.X
+	}
+	return false
 }
